@@ -100,6 +100,7 @@ func (t *tr) setObj(obj types.Object, name string, ty types.Type, val string, n 
 		t.fail(n, "variable %s of type %s", name, ty)
 		return
 	}
+	t.rank(obj)
 	t.f.env[obj] = t.define(name, lt, val)
 }
 
@@ -210,7 +211,7 @@ func (t *tr) callStmt(c *ast.CallExpr) bool {
 		t.store(dst, c, fmt.Sprintf("GoSem.xorInto %s %s %s %s %s", cur, lo, hi, t.expr(c.Args[1]), t.expr(c.Args[2])))
 		return true
 	}
-	if o, ok := t.f.mutops[t.src(c.Fun)]; ok {
+	if o, ok := t.f.mutops[t.ck(c)]; ok {
 		// X.m(args) on an abstract object: X := name X args
 		sel := c.Fun.(*ast.SelectorExpr)
 		obj, name := t.placeObj(sel.X)
@@ -225,7 +226,7 @@ func (t *tr) callStmt(c *ast.CallExpr) bool {
 		t.setObj(obj, name, t.typeOf(sel.X), leanName(o.name)+" "+strings.Join(args, " "), c)
 		return true
 	}
-	if o, ok := t.f.blockops[t.src(c.Fun)]; ok && len(c.Args) == 2 {
+	if o, ok := t.f.blockops[t.ck(c)]; ok && len(c.Args) == 2 {
 		// cipher.Block Encrypt / Decrypt (dst, src): one 16-byte block of src into the first 16 bytes of dst
 		dst, cur, lo, hi, ok := t.window(c.Args[0])
 		if !ok {
@@ -244,7 +245,7 @@ func (t *tr) callStmt(c *ast.CallExpr) bool {
 		t.store(dst, c, fmt.Sprintf("GoSem.blockInto 16 %s %s %s %s %s", bf, cur, lo, hi, t.expr(c.Args[1])))
 		return true
 	}
-	if o, ok := t.f.applyops[t.src(c.Fun)]; ok && len(c.Args) == 2 {
+	if o, ok := t.f.applyops[t.ck(c)]; ok && len(c.Args) == 2 {
 		// a length-preserving keyed transformation (cipher.Stream.XORKeyStream(dst, src) …): len(src) bytes into dst
 		dst, cur, lo, hi, ok := t.window(c.Args[0])
 		if !ok {
@@ -263,7 +264,7 @@ func (t *tr) callStmt(c *ast.CallExpr) bool {
 		t.store(dst, c, fmt.Sprintf("GoSem.applyInto %s %s %s %s %s", fn, cur, lo, hi, t.expr(c.Args[1])))
 		return true
 	}
-	if o, ok := t.f.fillops[t.src(c.Fun)]; ok && len(c.Args) == 1 {
+	if o, ok := t.f.fillops[t.ck(c)]; ok && len(c.Args) == 1 {
 		// fresh bytes (random.MustRand(dst), rand.Read(dst)): the whole window is overwritten
 		dst, cur, lo, hi, ok := t.window(c.Args[0])
 		if !ok {
@@ -560,6 +561,159 @@ func (t *tr) inlineClosure(fl *ast.FuncLit, c *ast.CallExpr, rest []ast.Stmt, de
 	return t.block(append(append([]ast.Stmt{}, fl.Body.List...), rest...), depth, k)
 }
 
+// sortInitRun: a maximal run of adjacent, mutually independent, pure initialisations (`x := e`, `var x T [= e]`) at the head of
+// the statement list is put into a canonical order — by kind of value, then by the text of the translated initialiser, then by
+// the original order — so that swapping such statements in the Go source does not change the generated definitions.
+func (t *tr) sortInitRun(stmts []ast.Stmt) []ast.Stmt {
+	f := t.f
+	if f.sortedRuns == nil {
+		f.sortedRuns = map[ast.Stmt]bool{}
+	}
+	if len(stmts) < 2 || f.sortedRuns[stmts[0]] {
+		return nil
+	}
+	type item struct {
+		s    ast.Stmt
+		rank int
+		text string
+		idx  int
+	}
+	var run []item
+	defined := map[types.Object]bool{}
+	for i, s := range stmts {
+		obj, rhs, ty, ok := t.simpleInit(s)
+		if !ok {
+			break
+		}
+		dep := false
+		if rhs != nil {
+			ast.Inspect(rhs, func(n ast.Node) bool {
+				if id, ok := n.(*ast.Ident); ok && defined[t.u.info.Uses[id]] {
+					dep = true
+				}
+				return true
+			})
+		}
+		if dep {
+			break
+		}
+		defined[obj] = true
+		kd, _ := classify(ty)
+		rank := map[kind]int{kSet: 0, kNat: 1, kBool: 2, kInt: 3, kByte: 4, kBytes: 5, kRec: 6, kRecList: 7, kAbs: 8}[kd]
+		text := "zero"
+		if rhs != nil {
+			nerr := len(t.errs)
+			text = t.exprAs(rhs, ty)
+			t.errs = t.errs[:nerr] // a failure is reported when the statement is translated
+		}
+		run = append(run, item{s, rank, text, i})
+	}
+	for _, it := range run {
+		f.sortedRuns[it.s] = true
+	}
+	if len(run) < 2 {
+		return nil
+	}
+	sort.SliceStable(run, func(i, j int) bool {
+		if run[i].rank != run[j].rank {
+			return run[i].rank < run[j].rank
+		}
+		if run[i].text != run[j].text {
+			return run[i].text < run[j].text
+		}
+		return run[i].idx < run[j].idx
+	})
+	out := make([]ast.Stmt, 0, len(stmts))
+	for _, it := range run {
+		out = append(out, it.s)
+	}
+	return append(out, stmts[len(run):]...)
+}
+
+// simpleInit: `x := e` / `var x T` / `var x T = e` with a pure initialiser and a plain (non-view, non-struct) variable
+func (t *tr) simpleInit(s ast.Stmt) (obj types.Object, rhs ast.Expr, ty types.Type, ok bool) {
+	switch x := s.(type) {
+	case *ast.AssignStmt:
+		if x.Tok != token.DEFINE || len(x.Lhs) != 1 || len(x.Rhs) != 1 {
+			return
+		}
+		id, isId := x.Lhs[0].(*ast.Ident)
+		if !isId || id.Name == "_" {
+			return
+		}
+		obj, rhs = t.u.info.Defs[id], x.Rhs[0]
+	case *ast.DeclStmt:
+		gd, isG := x.Decl.(*ast.GenDecl)
+		if !isG || gd.Tok != token.VAR || len(gd.Specs) != 1 {
+			return
+		}
+		vs := gd.Specs[0].(*ast.ValueSpec)
+		if len(vs.Names) != 1 || len(vs.Values) > 1 || vs.Names[0].Name == "_" {
+			return
+		}
+		obj = t.u.info.Defs[vs.Names[0]]
+		if len(vs.Values) == 1 {
+			rhs = vs.Values[0]
+		}
+	default:
+		return
+	}
+	if obj == nil {
+		return
+	}
+	ty = obj.Type()
+	if kd, _ := classify(ty); !supported(kd) {
+		return
+	}
+	if _, isView := t.f.viewVars[obj]; isView {
+		return
+	}
+	if rhs != nil && !t.pureExpr(rhs) {
+		return
+	}
+	return obj, rhs, ty, true
+}
+
+// pureExpr: no call except conversions, len / min / max / make, the binary.*.Uint* readers and callees declared -opaque
+// (pure by assumption); no function literal, no struct literal
+func (t *tr) pureExpr(e ast.Expr) bool {
+	pure := true
+	ast.Inspect(e, func(n ast.Node) bool {
+		switch x := n.(type) {
+		case *ast.FuncLit:
+			pure = false
+		case *ast.CompositeLit:
+			if k, _ := t.kindOf(x); k != kBytes {
+				pure = false
+			}
+		case *ast.UnaryExpr:
+			if x.Op == token.AND {
+				pure = false
+			}
+		case *ast.CallExpr:
+			if tv, ok := t.u.info.Types[x.Fun]; ok && tv.IsType() {
+				return true
+			}
+			if id, ok := x.Fun.(*ast.Ident); ok {
+				if _, isB := t.objOf(id).(*types.Builtin); isB && (id.Name == "len" || id.Name == "min" || id.Name == "max" || id.Name == "make") {
+					return true
+				}
+			}
+			if pkg, recv, name := t.stdCallee(x.Fun); pkg == "encoding/binary" && recv != "" {
+				if fn, ok := endianFns[name]; ok && fn.op == "get" {
+					return true
+				}
+			}
+			if _, ok := t.f.opaque[t.ck(x)]; ok {
+				return true
+			}
+			pure = false
+		}
+		return pure
+	})
+	return pure
+}
+
 // panicGuard recognises `if err != nil { panic(…) }`
 func (t *tr) panicGuard(s ast.Stmt, errObj types.Object) bool {
 	is, ok := s.(*ast.IfStmt)
@@ -582,8 +736,12 @@ func (t *tr) block(stmts []ast.Stmt, depth int, k func() string) string {
 	if len(stmts) == 0 {
 		return ind(depth) + k()
 	}
+	if sorted := t.sortInitRun(stmts); sorted != nil {
+		stmts = sorted
+	}
 	s, rest := stmts[0], stmts[1:]
 	info := t.u.info
+	t.f.curPos = s.Pos()
 	switch x := s.(type) {
 	case *ast.EmptyStmt:
 		return t.block(rest, depth, k)
@@ -619,7 +777,7 @@ func (t *tr) block(stmts []ast.Stmt, depth int, k func() string) string {
 				switch kd {
 				case kBytes:
 					if arr, ok := ty.Underlying().(*types.Array); ok {
-						t.setVar(n, ty, fmt.Sprintf("GoSem.makeBytes (%d : Int)", arr.Len()))
+						t.setVar(n, ty, fmt.Sprintf("(GoSem.makeBytes (%d : Int))", arr.Len()))
 					} else {
 						t.setVar(n, ty, "([] : Bytes)")
 					}
@@ -643,11 +801,17 @@ func (t *tr) block(stmts []ast.Stmt, depth int, k func() string) string {
 		return t.assignTo(x.X, ty, val, s, rest, depth, k)
 	case *ast.AssignStmt:
 		if x.Tok == token.DEFINE || x.Tok == token.ASSIGN {
+			if len(x.Rhs) == 1 {
+				if c, sg := t.statefulSig(x.Rhs[0]); sg != nil {
+					t.statefulCall(x.Lhs, c, sg, s)
+					return t.block(rest, depth, k)
+				}
+			}
 			if t.f.stateful && len(x.Lhs) == 1 && len(x.Rhs) == 1 {
-				if c, ok := x.Rhs[0].(*ast.CallExpr); ok && t.f.externValue[t.src(c.Fun)] {
+				if c, ok := x.Rhs[0].(*ast.CallExpr); ok && t.f.externValue[t.ck(c)] {
 					// v := obj.Draw(): the value and the object's next state
 					for _, e := range t.f.externs {
-						if e.callee == t.src(c.Fun) {
+						if e.callee == t.ck(c) {
 							obj := t.f.pvars[e.path]
 							cur, have := t.f.env[obj]
 							if !have || len(c.Args) != 0 {
@@ -693,7 +857,7 @@ func (t *tr) block(stmts []ast.Stmt, depth int, k func() string) string {
 				if tup, ok := t.typeOf(x.Rhs[0]).(*types.Tuple); ok && tup.Len() == 2 {
 					if ke, _ := classify(tup.At(1).Type()); ke == kErr {
 						if c, isCall := x.Rhs[0].(*ast.CallExpr); isCall {
-							if _, isFill := t.f.fillops[t.src(c.Fun)]; isFill {
+							if _, isFill := t.f.fillops[t.ck(c)]; isFill {
 								// _, err := rand.Read(dst); if err != nil { return … }: the source of fresh bytes is assumed not to fail
 								eid, ok := x.Lhs[1].(*ast.Ident)
 								if !ok || len(rest) == 0 || !(t.errGuard(rest[0], t.objOf(eid)) || t.panicGuard(rest[0], t.objOf(eid))) {
@@ -707,7 +871,7 @@ func (t *tr) block(stmts []ast.Stmt, depth int, k func() string) string {
 							}
 						}
 						if c, isCall := x.Rhs[0].(*ast.CallExpr); isCall {
-							if idx, isCtor := t.f.ctors[t.src(c.Fun)]; isCtor {
+							if idx, isCtor := t.f.ctors[t.ck(c)]; isCtor {
 								// x, err := <constructor represented by one of its arguments>(…): assumed to succeed
 								eid, ok := x.Lhs[1].(*ast.Ident)
 								vid, ok2 := x.Lhs[0].(*ast.Ident)
@@ -718,7 +882,7 @@ func (t *tr) block(stmts []ast.Stmt, depth int, k func() string) string {
 								return t.block(rest[1:], depth, k)
 							}
 						}
-						if c, isCall := x.Rhs[0].(*ast.CallExpr); isCall && t.f.abstract[t.src(c.Fun)] {
+						if c, isCall := x.Rhs[0].(*ast.CallExpr); isCall && t.f.abstract[t.ck(c)] {
 							// x, err := <constructor of an abstract object>(…); if err != nil { return … }:
 							// the object carries no value and the constructor is assumed to succeed
 							if kv, _ := classify(tup.At(0).Type()); kv != kBad {
@@ -827,6 +991,10 @@ func (t *tr) block(stmts []ast.Stmt, depth int, k func() string) string {
 			for i := range x.Lhs {
 				id, ok := x.Lhs[i].(*ast.Ident)
 				if !ok {
+					if obj, name := t.placeObj(x.Lhs[i]); obj != nil {
+						t.setObj(obj, name, t.typeOf(x.Lhs[i]), vals[i], s) // a field path
+						continue
+					}
 					return t.fail(s, "parallel assignment to a non-variable")
 				}
 				if id.Name == "_" {
@@ -857,6 +1025,10 @@ func (t *tr) block(stmts []ast.Stmt, depth int, k func() string) string {
 					return t.inlineClosure(fl, c, rest, depth, k)
 				}
 			}
+		}
+		if c, sg := t.statefulSig(x.X); sg != nil {
+			t.statefulCall(nil, c, sg, s)
+			return t.block(rest, depth, k)
 		}
 		if c, ok := x.X.(*ast.CallExpr); ok && t.callStmt(c) {
 			return t.block(rest, depth, k)
@@ -916,7 +1088,7 @@ func (t *tr) structLit(id *ast.Ident, rhs ast.Expr) bool {
 		}
 	}
 	for _, fld := range fields {
-		v := t.pathVarNamed(id.Name+"."+fld.Name(), id.Pos(), fld.Type())
+		v := t.pathVarNamed(localKey(obj)+"."+fld.Name(), id.Pos(), fld.Type())
 		var val string
 		if e, ok := given[fld.Name()]; ok {
 			val = t.expr(e)
@@ -925,7 +1097,7 @@ func (t *tr) structLit(id *ast.Ident, rhs ast.Expr) bool {
 			switch kd {
 			case kBytes:
 				if arr, ok := fld.Type().Underlying().(*types.Array); ok {
-					val = fmt.Sprintf("GoSem.makeBytes (%d : Int)", arr.Len())
+					val = fmt.Sprintf("(GoSem.makeBytes (%d : Int))", arr.Len())
 				} else {
 					val = "([] : Bytes)"
 				}
@@ -975,7 +1147,11 @@ func (t *tr) assignTo(lhs ast.Expr, ty types.Type, val string, s ast.Stmt, rest 
 			if base == nil || !isAssign || as.Tok != token.ASSIGN || len(as.Rhs) != 1 {
 				return t.fail(s, "store into a set")
 			}
-			if tv := t.u.info.Types[as.Rhs[0]]; tv.Value == nil || tv.Value.String() != "true" {
+			isUnit := false
+			if st, ok := t.typeOf(as.Rhs[0]).Underlying().(*types.Struct); ok && st.NumFields() == 0 {
+				isUnit = true // m[k] = struct{}{}
+			}
+			if tv := t.u.info.Types[as.Rhs[0]]; !isUnit && (tv.Value == nil || tv.Value.String() != "true") {
 				return t.fail(s, "a map[K]bool is translated as a set: only `m[k] = true` stores are supported")
 			}
 			t.setObj(base, name, t.typeOf(lv.X), fmt.Sprintf("(%s :: %s)", t.expr(lv.Index), t.expr(lv.X)), s)
@@ -1060,10 +1236,7 @@ func (t *tr) bindOption(x *ast.AssignStmt, tup *types.Tuple, rest []ast.Stmt, de
 				opt := t.define("opt_"+outs[0].dst.Name(), "Option "+ty, call)
 				f := t.f
 				saved := f.binders
-				bn := leanName(outs[0].dst.Name()) + "'"
-				for f.hasBinder(bn) {
-					bn += "'"
-				}
+				bn := t.newBinderName()
 				f.binders = append(append([]binder{}, f.binders...), binder{bn, bytesTuple(len(outs))})
 				t.storeProcOuts(outs, bn, x)
 				body := t.block(rest[1:], depth+1, k)
@@ -1104,7 +1277,7 @@ func (t *tr) bindOption(x *ast.AssignStmt, tup *types.Tuple, rest []ast.Stmt, de
 	var ioDst types.Object
 	var ioLo, ioHi string
 	if c, isCall := x.Rhs[0].(*ast.CallExpr); isCall {
-		if o, ok := f.inouts[t.src(c.Fun)]; ok {
+		if o, ok := f.inouts[t.ck(c)]; ok {
 			// x, err := callee(dst, args…): the callee writes the window dst and returns it (or a fresh slice when dst is empty)
 			if len(c.Args) == 0 {
 				return t.fail(x, "-inout call without a destination")
@@ -1138,10 +1311,7 @@ func (t *tr) bindOption(x *ast.AssignStmt, tup *types.Tuple, rest []ast.Stmt, de
 	}
 	opt := t.define("opt_"+vid.Name, "Option "+t.leanType(tup.At(0).Type()), call)
 	saved := f.binders
-	bn := leanName(vid.Name)
-	for f.hasBinder(bn) {
-		bn += "'"
-	}
+	bn := t.newBinderName()
 	f.binders = append(append([]binder{}, f.binders...), binder{bn, t.leanType(tup.At(0).Type())})
 	if vid.Name != "_" {
 		f.env[t.objOf(vid)] = bn
@@ -1164,7 +1334,38 @@ func (t *tr) ifStmt(x *ast.IfStmt, rest []ast.Stmt, depth int, k func() string) 
 		plainIf.Init = nil
 		return t.block(append([]ast.Stmt{x.Init, &plainIf}, rest...), depth, k)
 	}
-	c := t.cond(x.Cond)
+	// a condition that is (the negation of) a call of a stateful helper: the call is made first, its Bool result tested
+	var c string
+	{
+		ce := x.Cond
+		neg := false
+		for {
+			if p, ok := ce.(*ast.ParenExpr); ok {
+				ce = p.X
+				continue
+			}
+			if u, ok := ce.(*ast.UnaryExpr); ok && u.Op == token.NOT {
+				neg = !neg
+				ce = u.X
+				continue
+			}
+			break
+		}
+		if call, sg := t.statefulSig(ce); sg != nil && len(sg.resTys) == 1 {
+			if kd, _ := classify(sg.resTys[0]); kd == kBool {
+				res, _ := t.statefulCallR(nil, call, sg, x)
+				if len(res) == 1 {
+					c = "(" + res[0] + " = true)"
+					if neg {
+						c = "(¬ " + c + ")"
+					}
+				}
+			}
+		}
+	}
+	if c == "" {
+		c = t.cond(x.Cond)
+	}
 	var elseList []ast.Stmt
 	switch el := x.Else.(type) {
 	case nil:
@@ -1192,7 +1393,8 @@ func (t *tr) ifStmt(x *ast.IfStmt, rest []ast.Stmt, depth int, k func() string) 
 				objs = append(objs, o)
 			}
 		}
-		sort.Slice(objs, func(i, j int) bool { return objs[i].Pos() < objs[j].Pos() })
+		t.rankAll(objs)
+		sort.Slice(objs, func(i, j int) bool { return t.rank(objs[i]) < t.rank(objs[j]) })
 		for _, o := range objs {
 			t.f.env[o] = t.define(o.Name(), t.leanTypeOfObj(o), fmt.Sprintf("if %s then %s else %s", c, envA[o], envB[o]))
 		}
@@ -1241,9 +1443,78 @@ func cloneMap(m map[types.Object]string) map[types.Object]string {
 	return r
 }
 
+// switchAsIf: a switch (tagless, or with clauses that fall out of it) as the equivalent if / else-if chain
+func (t *tr) switchAsIf(x *ast.SwitchStmt, rest []ast.Stmt, depth int, k func() string) string {
+	var chain, last *ast.IfStmt
+	var def *ast.CaseClause
+	for _, cc := range x.Body.List {
+		c := cc.(*ast.CaseClause)
+		for _, st := range c.Body {
+			bad := false
+			ast.Inspect(st, func(n ast.Node) bool {
+				switch y := n.(type) {
+				case *ast.ForStmt, *ast.RangeStmt, *ast.SwitchStmt, *ast.FuncLit:
+					return false
+				case *ast.BranchStmt:
+					if y.Tok == token.BREAK || y.Tok == token.FALLTHROUGH {
+						bad = true
+					}
+				}
+				return true
+			})
+			if bad {
+				return t.fail(c, "switch clause with break / fallthrough")
+			}
+		}
+		if c.List == nil {
+			def = c
+			continue
+		}
+		var cond ast.Expr
+		for _, e := range c.List {
+			var one ast.Expr = e
+			if x.Tag != nil {
+				one = &ast.BinaryExpr{X: x.Tag, Op: token.EQL, Y: e, OpPos: e.Pos()}
+			}
+			if cond == nil {
+				cond = one
+			} else {
+				cond = &ast.BinaryExpr{X: cond, Op: token.LOR, Y: one, OpPos: e.Pos()}
+			}
+		}
+		is := &ast.IfStmt{If: c.Pos(), Cond: cond, Body: &ast.BlockStmt{Lbrace: c.Pos(), List: c.Body, Rbrace: c.End()}}
+		if chain == nil {
+			chain = is
+		} else {
+			last.Else = is
+		}
+		last = is
+	}
+	if chain == nil {
+		if def != nil {
+			return t.block(append(append([]ast.Stmt{}, def.Body...), rest...), depth, k)
+		}
+		return t.block(rest, depth, k)
+	}
+	if def != nil {
+		last.Else = &ast.BlockStmt{Lbrace: def.Pos(), List: def.Body, Rbrace: def.End()}
+	}
+	return t.ifStmt(chain, rest, depth, k)
+}
+
 func (t *tr) switchStmt(x *ast.SwitchStmt, rest []ast.Stmt, depth int, k func() string) string {
-	if x.Init != nil || x.Tag == nil {
-		return t.fail(x, "switch with init or without tag")
+	if x.Init != nil {
+		plain := *x
+		plain.Init = nil
+		return t.block(append([]ast.Stmt{x.Init, &plain}, rest...), depth, k)
+	}
+	if x.Tag == nil {
+		return t.switchAsIf(x, rest, depth, k)
+	}
+	for _, cc := range x.Body.List {
+		if !terminates(cc.(*ast.CaseClause).Body) {
+			return t.switchAsIf(x, rest, depth, k)
+		}
 	}
 	kd, _ := t.kindOf(x.Tag)
 	if kd != kInt && kd != kNat && kd != kByte {
@@ -1356,7 +1627,21 @@ func (t *tr) assignedObjs(stmts []ast.Stmt) map[types.Object]bool {
 						markStore(x.Args[i])
 					}
 				}
-				callee := t.src(x.Fun)
+				if sg := t.calleeSig(x); sg != nil && sg.stateful {
+					for _, key := range sg.stateKeys {
+						if v := t.f.pvars[key]; v != nil {
+							res[v] = true
+						} else {
+							// first sight of this field here: create its variable (its binder comes with the callee's parameters)
+							for bn, src := range sg.pathSrc {
+								if src == key {
+									res[t.pathVarNamed(key, x.Pos(), sg.pathTy[bn])] = true
+								}
+							}
+						}
+					}
+				}
+				callee := t.ck(x)
 				for _, e := range t.f.externs {
 					if e.callee == callee {
 						// a call on an external object advances its state; a read-like call also fills its buffer argument
@@ -1402,8 +1687,14 @@ func (t *tr) forStmt(x *ast.ForStmt, rest []ast.Stmt, depth int, k func() string
 	if kd, w := classify(iobj.Type()); kd != kInt || w != 64 {
 		return t.fail(x, "loop variable of type %s", iobj.Type())
 	}
+	return t.simpleLoop(x, iobj, cnd.Y, t.intExpr(cnd.Y), x.Body, nil, rest, depth, k)
+}
+
+// simpleLoop: `for i := 0; i < bound; i++ { body }` with a body that cannot leave the loop (→ GoSem.forRange).
+// Also the normal form of `for i := range n` and of `for i, v := range b` over a byte slice (pre binds v to b[i]).
+func (t *tr) simpleLoop(x ast.Node, iobj types.Object, boundNode ast.Expr, bound string, xBody *ast.BlockStmt, pre func(in string), rest []ast.Stmt, depth int, k func() string) string {
 	bad := false
-	ast.Inspect(x.Body, func(n ast.Node) bool {
+	ast.Inspect(xBody, func(n ast.Node) bool {
 		switch n.(type) {
 		case *ast.ReturnStmt, *ast.BranchStmt, *ast.GoStmt, *ast.DeferStmt, *ast.FuncLit:
 			bad = true
@@ -1413,13 +1704,16 @@ func (t *tr) forStmt(x *ast.ForStmt, rest []ast.Stmt, depth int, k func() string
 	if bad {
 		return t.fail(x, "loop body with return / break / continue / closure")
 	}
-	written := t.assignedObjs(x.Body.List)
-	if written[iobj] {
+	written := t.assignedObjs(xBody.List)
+	if iobj != nil && written[iobj] {
 		return t.fail(x, "loop variable is modified in the body")
 	}
 	// the bound must be loop-invariant
 	inv := true
-	ast.Inspect(cnd.Y, func(n ast.Node) bool {
+	if boundNode == nil {
+		boundNode = &ast.BasicLit{} // range forms evaluate their operand once, before the loop
+	}
+	ast.Inspect(boundNode, func(n ast.Node) bool {
 		if id, ok := n.(*ast.Ident); ok {
 			if o := t.u.info.Uses[id]; o != nil && written[o] {
 				inv = false
@@ -1430,14 +1724,14 @@ func (t *tr) forStmt(x *ast.ForStmt, rest []ast.Stmt, depth int, k func() string
 	if !inv {
 		return t.fail(x, "loop bound is modified in the body")
 	}
-	bound := t.intExpr(cnd.Y)
 	var state []types.Object
 	for o := range written {
 		if _, ok := t.f.env[o]; ok {
 			state = append(state, o)
 		}
 	}
-	sort.Slice(state, func(i, j int) bool { return state[i].Pos() < state[j].Pos() })
+	t.rankAll(state)
+	sort.Slice(state, func(i, j int) bool { return t.rank(state[i]) < t.rank(state[j]) })
 	if len(state) == 0 {
 		return t.block(rest, depth, k)
 	}
@@ -1455,10 +1749,7 @@ func (t *tr) forStmt(x *ast.ForStmt, rest []ast.Stmt, depth int, k func() string
 	f.loopN++
 	ln := fmt.Sprintf("loop%d", f.loopN)
 	sn := fmt.Sprintf("s%d", f.loopN)
-	in := leanName(iv.Name)
-	for f.hasBinder(in) {
-		in += "'"
-	}
+	in := fmt.Sprintf("i%d", f.loopN)
 	savedB, savedEnv, savedName := f.binders, t.cloneEnv(), f.name
 	outerArgs := f.args()
 	outerDecl := f.binderDecl()
@@ -1475,9 +1766,14 @@ func (t *tr) forStmt(x *ast.ForStmt, rest []ast.Stmt, depth int, k func() string
 		}
 		f.env[o] = p
 	}
-	f.env[iobj] = in
+	if iobj != nil {
+		f.env[iobj] = in
+	}
+	if pre != nil {
+		pre(in)
+	}
 	f.name = savedName + "." + ln
-	body := t.block(x.Body.List, 1, func() string {
+	body := t.block(xBody.List, 1, func() string {
 		var vs []string
 		for _, o := range state {
 			vs = append(vs, f.env[o])
